@@ -82,8 +82,8 @@ def subs(tier: str):
     q = tier == "quick"
     hi = 12 if q else 30
     return [
-        Sub("all-generators", check, "hypothesis", strategy=_strategy(hi), examples=150 if q else 2500),
+        Sub("all-generators", check, "hypothesis", strategy=_strategy(hi), examples=400 if q else 4000),
         Sub("defaults-spanning-tree", check, "hypothesis",
-            strategy=_strategy(hi if q else 20, defaults_only=True, names=["gen_dfs", "gen_wilson"]), examples=60 if q else 1000),
-        Sub("percolation-extremes", check, "hypothesis", strategy=lambda: _perc_extremes(hi), examples=30 if q else 400),
+            strategy=_strategy(hi if q else 20, defaults_only=True, names=["gen_dfs", "gen_wilson"]), examples=250 if q else 2000),
+        Sub("percolation-extremes", check, "hypothesis", strategy=lambda: _perc_extremes(hi), examples=60 if q else 600),
     ]
